@@ -651,7 +651,7 @@ pub fn run(ctx: &mut Ctx) {
             Ok(s) => s,
             Err(e) => {
                 ctx.obs("gen.wmodel.write_failed");
-                ctx.obs(&format!("gen.wmodel.write_failed.{}", crate::mon::dump::err_name(&e)));
+                ctx.obs(&format!("gen.wmodel.write_failed.{}", e.chars().take_while(|c| c.is_ascii_alphanumeric()).collect::<String>()));
                 continue;
             }
         };
